@@ -9,8 +9,8 @@ namespace HdVerif.Codec
 open HdVerif HdVerif.Bits HdVerif.Gen HdVerif.FrameAccessLemmas
 
 /-- **Bridge over T13g.**  At each of the four sites that call `decode_frame` the current source passes ALL eleven parameters, each
-in a normal form under which the call is `readFrame` (`readerSource`); at each of the three sites that call `encode_frame`
-the object's own attributes (`writerSource`); and the table holds no other site. -/
+in a normal form under which the call is `readFrame` (`readerSource`); at each of the five sites that call `encode_frame`
+(or submit it to a worker pool) the object's own attributes (`writerSource`); and the table holds no other site. -/
 theorem call_sites_tie :
     (∀ s ∈ decodeSites, siteAgrees frameCodecCallSites s "decode_frame" readerSource = true) ∧
     (∀ s ∈ encodeSites, siteAgrees frameCodecCallSites s "encode_frame" writerSource = true) ∧
